@@ -1,5 +1,6 @@
 """ A transition function in a pushdown automaton """
 
+import copy
 from typing import List
 
 from .stack_symbol import StackSymbol
@@ -97,4 +98,4 @@ class TransitionFunction:
 
     def to_dict(self):
         """Get the dictionary representation of the transitions"""
-        return self._transitions
+        return copy.deepcopy(self._transitions)
